@@ -736,6 +736,12 @@ func (db *DB) searchAll(o Object, field, operator string, value interface{}, con
 		return &Search{db: db, err: err}
 	}
 
+	// the query is validated before going through the collection, so that its
+	// outcome does not depend on whether the field is indexed or the collection empty
+	if err = s.validateQuery(field, operator, search); err != nil {
+		return &Search{db: db, err: err}
+	}
+
 	// building up the iterator out of constrain
 	if constrain != nil {
 		uuids := make([]string, 0, len(constrain))
